@@ -103,9 +103,16 @@ C03(z) ==
 
 (***************************************************************************)
 \* C08: time of day modulo 24 h
+\* counts that land exactly on / next to midnight: the wrap-around boundary of C08
+MidnightCounts(t, u, sign) ==
+  LET dist == IF sign > 0 THEN Sub(DayNs, TodWide(t)) ELSE TodWide(t)
+      n == FloorDivSeq(dist, UnitRadices(u), 1)
+  IN {x \in {n, Add(n, W(1)), Sub(n, W(1))} : ~x.neg /\ Cmp(x, U32Max) <= 0}
 C08(z) ==
-  LET ts == {Tm(t[1], t[2], o) : t \in KeyTods, o \in {0, 3600, -86399}}
-  IN {Case([op |-> op, u |-> u, n |-> n], a, a) : a \in ts, op \in {"time_add", "time_sub"}, u \in Units \ {"day"}, n \in KeyCounts}
+  LET ts == {Tm(t[1], t[2], o) : t \in KeyTods \cup {<<86399, 999999000>>, <<82800, 0>>, <<1, 0>>}, o \in {0, 3600, -86399}}
+  IN UNION {{Case([op |-> op, u |-> u, n |-> n], a, a) :
+               n \in KeyCounts \cup MidnightCounts(TodOf(a), u, IF op = "time_add" THEN 1 ELSE -1)} :
+             a \in ts, op \in {"time_add", "time_sub"}, u \in Units \ {"day"}}
      \cup {Case([op |-> op], a, Tm(b[1], b[2], 0)) : a \in ts, b \in KeyTods, op \in {"time_add_time", "time_sub_time"}}
      \cup {Case([op |-> op, secs |-> s, ns |-> n], a, a) : a \in ts, op \in {"time_add_dur", "time_sub_dur"},
              s \in {W(0), W(1), W(86399), W(86400), W(86401), U32Max, MulSmall(U32Max, 86400),
